@@ -63,7 +63,7 @@ class C19(Prop):
         "index expressions preserves the denoted function; non-trivial = rank>=2 with a permutation that is not the identity, or a dropped size-1 name"
     )
     assumptions = ("numpy indexing is the reference; lazy terms are evaluated with the reference evaluator vf/lang.py",)
-    cases = {"quick": 3000, "thorough": 200000}
+    cases = {"quick": 5000, "thorough": 200000}
 
     def strategy(self, tier):
         return st.integers(0, 2**40).map(robust_gen(gen_case))
